@@ -25,6 +25,19 @@ def main(argv):
                 return 1
             print('replay of %s: no violation (stored: %s)' % (argv[2], want.get('inv')))
             return 0
+        if argv[1] == 'minimise':
+            import json
+            doc = json.load(open(argv[2]))
+            small, best, tests = runner.minimise(doc['property'], doc['seed'], doc['cfg'], doc['events'], doc['violation']['inv'],
+                                                 budget_s=float(os.environ.get('VERIF_MIN_S', '120')))
+            if best is None:
+                print('does not reproduce')
+                return 1
+            vv = [x for x in best['violations'] if x['inv'] == doc['violation']['inv']][0]
+            out = runner.write_replay(doc['property'], doc['seed'], doc['cfg'], small, vv, best.get('digest'),
+                                      name=os.path.basename(argv[3]), directory=os.path.dirname(os.path.abspath(argv[3])))
+            print('minimised %d -> %d events in %d tests: %s' % (len(doc['events']), len(small), tests, out))
+            return 0
         if argv[1] == 'selftest':
             from vsim import selftest
             return selftest.main(argv[2:])
